@@ -1,10 +1,11 @@
 """C19 — configuration, trajectory and input-template codecs are lossless.
 
-The package has five parts, each with its own model file, lemma file and tie module:
+The package has six parts, each with its own model file, lemma file and tie module:
   tmpl   c19_tmpl.py    _modify_input / _read_input_settings / write_for_run     (Model/Template.lean)
   cp2k   c19_cp2k.py    CP2K section tree editor                                  (Model/TemplateCp2k.lean)
   codec  c19_codec.py   fixed-point text codecs .g96 / extended xyz               (Model/Codec.lean)
   lmp    c19_lmp.py     lammpstrj codec and TRR layout                            (Model/CodecLmp.lean)
+  hard   c19_hard.py    call history / purity / boundaries (same file name rewritten, reused dicts, ...)  (tie-only)
   box    c19_box.py     nine-component box order: box_matrix_to_list, TRR→g96, CP2K cell   (Model/CodecBox.lean)
 Each part generates its cases from ctx.rng, runs the REAL readers/writers/editors on temp files under
 /var/tmp, compares with the compiled Lean driver (drv_c19) and evaluates the property predicates on
@@ -23,7 +24,7 @@ import time
 from common import CORPUS
 
 CORPUS_IN_RUN = True     # run() replays corpus/C19/*.json itself (per part), see _corpus
-PARTS = ["c19_tmpl", "c19_cp2k", "c19_codec", "c19_lmp", "c19_box"]
+PARTS = ["c19_tmpl", "c19_cp2k", "c19_codec", "c19_lmp", "c19_box", "c19_hard"]
 MISSING: list = []
 
 
@@ -40,6 +41,36 @@ def _mods():
                 raise
             MISSING.append(name)
     return mods
+
+
+class PartTimeout(Exception):
+    pass
+
+
+PART_LIMIT_S = 900
+
+
+def _bounded(ctx, m):
+    """run one part under its own wall-clock bound (inside the framework's global alarm, which is restored):
+    a hanging real-code loop is then reported by this check (exit 1, no-failing-input-found) instead of exit 2"""
+    import signal
+    t0 = time.time()
+    remaining = signal.alarm(0)
+    old = signal.getsignal(signal.SIGALRM)
+    limit = PART_LIMIT_S if not remaining else max(1, min(PART_LIMIT_S, remaining - 5))
+
+    def on_alarm(signum, frame):
+        raise PartTimeout()
+
+    signal.signal(signal.SIGALRM, on_alarm)
+    signal.alarm(limit)
+    try:
+        return m.run_part(ctx)
+    finally:
+        signal.alarm(0)
+        signal.signal(signal.SIGALRM, old)
+        if remaining:
+            signal.alarm(max(1, remaining - int(time.time() - t0)))
 
 
 def _corpus(ctx, mods):
@@ -72,7 +103,19 @@ def run(ctx):
             ctx.rng = random.Random(f"C19:{m.__name__.split('.')[-1]}:{ctx.seed}")
         t0 = time.time()
         ev0 = ctx.evaluations
-        r = m.run_part(ctx)
+        try:
+            r = _bounded(ctx, m)
+        except PartTimeout:
+            r = None
+            ctx.disagree({"part": m.__name__.split(".")[-1], "hang": f"part did not finish within {PART_LIMIT_S} s"},
+                         "part timed out (a real-code loop does not terminate on one of the generated inputs?)", "finishes")
+        except Exception as e:  # noqa: BLE001
+            # a harness exception on changed code must not end the check with exit 2 and hide what the other parts find:
+            # it is recorded as a broken correspondence of this part and the remaining parts still run
+            import traceback
+            r = None
+            ctx.disagree({"part": m.__name__.split(".")[-1], "exception": f"{type(e).__name__}: {e}",
+                          "trace": traceback.format_exc()[-800:]}, "part raised", "no exception")
         if r:
             rules.append(str(r))
         timings[m.__name__.split(".")[-1]] = {"wall_s": round(time.time() - t0, 2), "evaluations": ctx.evaluations - ev0}
